@@ -173,10 +173,11 @@ class SrcState:
 
     __slots__ = ("sid", "items", "plan", "pos", "uses", "ended", "closed", "active", "overlap",
                  "faulted", "use_after_fault", "pull_after_end", "gen", "started", "use_after_close",
-                 "max_active", "log", "drop", "honour_close")
+                 "max_active", "log", "drop", "honour_close", "given")
 
     def __init__(self, sid: Any, items: List[Any], plan: Plan = NOPLAN, log: bool = True):
         self.sid = sid
+        self.given = 0  # iterators handed out by an ITERABLE flavour (ownership of such an iterator starts there)
         self.items = items
         self.plan = plan
         self.pos = 0
@@ -591,6 +592,7 @@ class AsyncIterable:
         self.asked += 1
         if self.asked > 1:
             CTX.foreign.append(f"iterable {self.st.sid} was asked for an iterator {self.asked} times")
+        self.st.given += 1
         return AsyncSrc(self.st)
 
 
@@ -601,6 +603,13 @@ class SyncIterable:
     def __init__(self, st: SrcState):
         self.st = st
         self.asked = 0
+        # attributes that merely LOOK like the asynchronous protocols (set on the instance: a proxy, a record with
+        # such fields): the protocols are looked up on the type - this is a synchronous collection and nothing else
+        self.__aiter__ = self.__anext__ = self.__await__ = self._touched
+
+    def _touched(self, *args: Any) -> Any:
+        CTX.foreign.append(f"an instance attribute of the synchronous collection {self.st.sid} was used as an async protocol method")
+        raise TypeError("not an asynchronous object")
 
     def __bool__(self) -> bool:
         return False
@@ -817,6 +826,22 @@ def make_fn(fs: FnState, flavour: str) -> Any:
                 return 0
 
         return AwaitCallObj()
+    if flavour == "classobj":
+        class Job:
+            """The callable IS a class: calling it creates an awaitable job object (the call logs / may fail like any
+            plain function handing back an awaitable)."""
+
+            def __init__(self, *args: Any, **kwargs: Any):
+                self._rest = eager_call(*args, **kwargs)
+
+            def __await__(self) -> Any:
+                return self._rest.__await__()
+
+        return Job
+    if flavour == "builtin_abs":
+        # a BUILTIN function (C implemented, neither ``def`` nor ``async def``) that hands back an awaitable: ``abs`` gives
+        # whatever its argument's ``__abs__`` gives.  Its argument is wrapped accordingly by the caller (AbsArg).
+        return abs
     raise ValueError(flavour)
 
 
